@@ -1751,6 +1751,406 @@ def map_problems(fn, by_decl):
     return viol, inc, len(seen)
 
 
+# ---- copy-like operations transfer the state the filter methods read ------------------------------------------------
+
+COPY_OPS = ("move-ctor", "move-assign", "clone()", "clone(other)", "convert(other)")
+FILTER_CLASSES = ("FEAT::LAFEM::UnitFilter", "FEAT::LAFEM::UnitFilterBlocked", "FEAT::LAFEM::SlipFilter", "FEAT::LAFEM::MeanFilter",
+                  "FEAT::LAFEM::MeanFilterBlocked", "FEAT::Global::MeanFilter", "FEAT::LAFEM::FilterChain", "FEAT::LAFEM::TupleFilter",
+                  "FEAT::LAFEM::PowerFilter", "FEAT::LAFEM::FilterSequence", "FEAT::Global::Filter")
+
+
+def copy_op_kind(f):
+    """which copy-like operation of its class a function is (None if it is not one)"""
+    ptypes = [f.type(p["t"]).replace("const", "").replace(" ", "") for p in f.params]
+    own = f.cls.replace(" ", "")
+    sugar = base_name(f.cls).rsplit("::", 1)[-1]
+
+    def is_own(t, suffix):
+        t0 = t[:-len(suffix)] if t.endswith(suffix) else None
+        return t0 is not None and (t0 == own or t0 == sugar or t0.endswith("::" + sugar) or base_name(t0) == base_name(own).replace(" ", ""))
+    if f.d.get("ctor"):
+        return "move-ctor" if len(ptypes) == 1 and is_own(ptypes[0], "&&") else None
+    if f.name == "operator=" and len(ptypes) == 1:
+        return "move-assign"
+    if f.name == "clone":
+        if len(ptypes) == 1:
+            return "clone()"
+        if len(ptypes) == 2 and is_own(ptypes[0], "&"):
+            return "clone(other)"
+    if f.name == "convert" and len(ptypes) == 1:
+        return "convert(other)"
+    return None
+
+
+class CopyFlow:
+    """may-dataflow of 'which member of the source object defines which member of the target' through one copy-like operation"""
+
+    def __init__(self, facts, by_decl):
+        self.facts = facts
+        self.by_decl = by_decl
+        self.memo = {}
+
+    def getter_member(self, n):
+        """x.get_foo() / x.local() whose body is `return <own field>;` -> field name"""
+        f = self.by_decl.get(n.get("cdecl"))
+        if f is None or f.body is None or n.get("a"):
+            return None
+        st = f.body.get("s", [])
+        if len(st) == 1 and st[0].get("k") == "Return":
+            e = st[0].get("e") or {}
+            if e.get("k") == "Member" and (e.get("b") or {}).get("k") == "This" and e.get("field"):
+                return e["n"]
+        return None
+
+    def is_src(self, n, src):
+        if src == "this":
+            return n.get("k") == "This" or (n.get("k") == "Un" and n.get("op") == "*" and (n.get("e") or {}).get("k") == "This")
+        return n.get("k") == "Ref" and n.get("d") == src
+
+    def target_member(self, n):
+        """expression denoting a data member of *this (field access or accessor returning it)"""
+        if n.get("k") == "Member" and n.get("field") and (n.get("b") or {}).get("k") == "This":
+            return n["n"]
+        if n.get("k") == "MCall" and (n.get("obj") or {}).get("k") == "This":
+            return self.getter_member(n)
+        return None
+
+    def tags(self, n, src, env, fn):
+        """set of source-member names (or '*' whole source, '?' unknown, 'p:<decl>' parameter, 'm:<name>' own member) an expression derives from"""
+        if n is None or not isinstance(n, dict):
+            return set()
+        k = n.get("k")
+        if self.is_src(n, src):
+            return {"*"}
+        if k == "Member" and n.get("field"):
+            b = n.get("b") or {}
+            if self.is_src(b, src):
+                return {n["n"]}
+            if b.get("k") == "This":
+                return {"m:" + n["n"]}
+        if k == "MCall" and n.get("obj") is not None and not n.get("a"):
+            o = n["obj"]
+            if self.is_src(o, src) or o.get("k") == "This":
+                g = self.getter_member(n)
+                if g is not None:
+                    return {g} if self.is_src(o, src) else {"m:" + g}
+                if self.is_src(o, src):
+                    return {"?"}
+        if k == "Ref":
+            if n.get("d") in env:
+                return set(env[n["d"]])
+            if n.get("dk") == "param":
+                return {"p:%s" % n["d"]}
+            return set()
+        out = set()
+        for c in featlib.children(n):
+            out |= self.tags(c, src, env, fn)
+        return out
+
+    def ctor_map(self, ctor):
+        """constructor: member -> set of 'p:<decl>' / 'm:<member>' tags it is initialised / assigned from"""
+        key = ("ctor", ctor.d["decl"])
+        if key not in self.memo:
+            self.memo[key] = self.transfers(ctor, None)[0]
+        return self.memo[key]
+
+    def transfers(self, fn, src):
+        """-> (dict target member -> tags, list of not-understood constructs).  src: decl id of the source parameter, 'this', or None (plain ctor)"""
+        T, unknown = {}, []
+        env = {}         # local object / value -> tags or, for objects of the own class, a summary dict under key ('obj', decl)
+        objs = {}
+
+        def add(m, tg):
+            if tg:
+                T.setdefault(m, set()).update(tg)
+
+        for i in fn.d.get("inits", []) or []:
+            if i.get("member"):
+                add(i["member"], self.tags(i["init"], src, env, fn))
+            elif i.get("base"):
+                tg = self.tags(i["init"], src, env, fn)
+                if tg:
+                    add("<base>", tg)
+
+        def own_object_summary(e):
+            """summary (member -> tags) of an expression of the own class type built from the source, or None"""
+            if e is None:
+                return None
+            while e.get("k") == "Cast" and e.get("e") is not None:
+                e = e["e"]
+            kk = e.get("k")
+            if kk == "Call" and e.get("callee") in ("std::move", "std::forward") and len(e.get("a", [])) == 1:
+                return own_object_summary(e["a"][0])
+            if kk == "Ref" and e.get("d") in objs:
+                return objs[e["d"]]
+            if kk in ("Construct", "TempObj") and e.get("ccls") == fn.cls:
+                args = e.get("a", [])
+                ctor = self.by_decl.get(e.get("cdecl"))
+                if len(args) == 1:
+                    inner = own_object_summary(args[0])
+                    if inner is not None:
+                        return inner          # copy / move construction from an object of the same class
+                if ctor is None:
+                    return None
+                cm = self.ctor_map(ctor)
+                pidx = {"p:%s" % p["d"]: k_ for k_, p in enumerate(ctor.params)}
+                out = {}
+                for m, tg in cm.items():
+                    res = set()
+                    for t in tg:
+                        if t in pidx and pidx[t] < len(args):
+                            res |= self.tags(args[pidx[t]], src, env, fn)
+                        elif t.startswith("m:"):
+                            res.add("derived:" + t[2:])
+                        else:
+                            res.add(t)
+                    out[m] = res
+                return out
+            return None
+
+        def local_obj_member(e):
+            """`obj._m` for a local object of the own class -> (summary dict, member)"""
+            if e.get("k") == "Member" and e.get("field") and (e.get("b") or {}).get("k") == "Ref" and e["b"].get("d") in objs:
+                return objs[e["b"]["d"]], e["n"]
+            return None
+
+        def map_params(callee, args):
+            """transfers of an own method (setter / helper) with its parameters replaced by the tags of the arguments"""
+            key = ("fn", callee.d["decl"])
+            if key not in self.memo:
+                self.memo[key] = self.transfers(callee, None)
+            cm, unk = self.memo[key]
+            pidx = {"p:%s" % p["d"]: k_ for k_, p in enumerate(callee.params)}
+            out = {}
+            for m, tg in cm.items():
+                res = set()
+                for t in tg:
+                    if t in pidx and pidx[t] < len(args):
+                        res |= self.tags(args[pidx[t]], src, env, fn)
+                    elif t.startswith("m:"):
+                        res.add("derived:" + t[2:])
+                    else:
+                        res.add(t)
+                out[m] = res
+            return out, unk
+
+        def visit(n):
+            kk = n.get("k")
+            if kk == "Block":
+                for x in n.get("s", []):
+                    visit(x)
+                return
+            if kk == "If":
+                visit(n["then"])
+                if n.get("else"):
+                    visit(n["else"])
+                return
+            if kk == "Decl":
+                for v in n["vars"]:
+                    ini = v.get("init")
+                    ty = fn.type(v["t"]).replace("const", "").strip()
+                    if ini is not None and ini.get("k") in ("Construct", "TempObj") and ini.get("ccls") == fn.cls:
+                        sm = own_object_summary(ini)
+                        objs[v["d"]] = sm if sm is not None else {}
+                    elif ini is None and base_name(ty) == base_name(fn.cls):
+                        objs[v["d"]] = {}
+                    else:
+                        env[v["d"]] = self.tags(ini, src, env, fn) if ini is not None else set()
+                return
+            if kk == "Return":
+                e = n.get("e")
+                if e is None:
+                    return
+                if e.get("k") == "Un" and e.get("op") == "*" and (e.get("e") or {}).get("k") == "This":
+                    return
+                if src == "this":
+                    sm = own_object_summary(e)
+                    if sm is None:
+                        unknown.append("returned object `%s` is not built by a constructor / sibling operation of the class" % render(e)[:80])
+                    else:
+                        for m, tg in sm.items():
+                            add(m, tg)
+                return
+            if kk == "Assign" or (kk == "OpCall" and n.get("op") == "=" and len(n.get("a", [])) == 2):
+                lhs = n["lhs"] if kk == "Assign" else n["a"][0]
+                rhs = n["rhs"] if kk == "Assign" else n["a"][1]
+                m = self.target_member(lhs)
+                if m is not None:
+                    add(m, self.tags(rhs, src, env, fn))
+                    return
+                lo_ = local_obj_member(lhs)
+                if lo_ is not None:
+                    lo_[0].setdefault(lo_[1], set()).update(self.tags(rhs, src, env, fn))
+                    return
+                if lhs.get("k") == "Ref" and lhs.get("dk") == "local":
+                    env[lhs["d"]] = set(env.get(lhs["d"], set())) | self.tags(rhs, src, env, fn)
+                    return
+                unknown.append("assignment to `%s`" % render(lhs)[:60])
+                return
+            if kk == "MCall":
+                o = n.get("obj") or {}
+                m = self.target_member(o)
+                if m is not None:
+                    tg = set()
+                    for a in n.get("a", []):
+                        tg |= self.tags(a, src, env, fn)
+                    add(m, tg - {"p:%s" % p["d"] for p in fn.params})
+                    return
+                lo_ = local_obj_member(o)
+                if lo_ is not None:
+                    tg = set()
+                    for a in n.get("a", []):
+                        tg |= self.tags(a, src, env, fn)
+                    lo_[0].setdefault(lo_[1], set()).update(tg - {"p:%s" % p["d"] for p in fn.params})
+                    return
+                if o.get("k") == "Ref" and o.get("d") in objs and n.get("ccls") == fn.cls:
+                    # sibling copy-like operation applied to a local object of the class, fed with the source
+                    callee = self.by_decl.get(n.get("cdecl"))
+                    args = n.get("a", [])
+                    if callee is not None and copy_op_kind(callee) in ("clone(other)", "convert(other)") and args and self.is_src(args[0], src):
+                        sub, unk = self.transfers(callee, callee.params[0]["d"])
+                        unknown.extend(unk)
+                        for mm, tg in sub.items():
+                            objs[o["d"]].setdefault(mm, set()).update(tg)
+                        return
+                if o.get("k") == "This" and n.get("ccls") == fn.cls:
+                    callee = self.by_decl.get(n.get("cdecl"))
+                    args = n.get("a", [])
+                    if callee is not None and copy_op_kind(callee) in ("clone(other)", "convert(other)") and args and self.is_src(args[0], src):
+                        sub, unk = self.transfers(callee, callee.params[0]["d"])
+                        unknown.extend(unk)
+                        for mm, tg in sub.items():
+                            add(mm, tg)
+                        return
+                if o.get("k") in ("This", "Ref") and n.get("ccls") == fn.cls and (o.get("k") == "This" or o.get("d") in objs):
+                    callee = self.by_decl.get(n.get("cdecl"))
+                    if callee is not None and callee.body is not None and callee is not fn and not copy_op_kind(callee):
+                        sub, unk = map_params(callee, n.get("a", []))      # setter / private helper of the class
+                        unknown.extend(unk)
+                        for mm, tg in sub.items():
+                            if o.get("k") == "This":
+                                add(mm, tg)
+                            else:
+                                objs[o["d"]].setdefault(mm, set()).update(tg)
+                        return
+                unknown.append("call `%s`" % render(n)[:80])
+                return
+            if kk == "Call":
+                if n.get("callee") == "FEAT::assertion":
+                    return
+                if n.get("callee") == "std::swap" and len(n.get("a", [])) == 2:
+                    for x, y in ((n["a"][0], n["a"][1]), (n["a"][1], n["a"][0])):
+                        m = self.target_member(x)
+                        if m is not None:
+                            add(m, self.tags(y, src, env, fn))
+                    return
+                unknown.append("call `%s`" % render(n)[:80])
+                return
+            if kk in ("Null_",):
+                return
+            unknown.append("statement `%s` (%s)" % (render(n)[:60], kk))
+
+        if fn.body is not None:
+            visit(fn.body)
+        return T, unknown
+
+
+def members_read_by_filters(facts, cls, by_decl):
+    """data members of `cls` read (transitively through own methods) by its filter_* methods"""
+    work = [f for f in facts.functions if f.cls == cls and f.name and f.name.startswith("filter_") and f.body is not None]
+    seen, mem = set(), set()
+    while work:
+        f = work.pop()
+        if f.d["decl"] in seen:
+            continue
+        seen.add(f.d["decl"])
+        for n in f.nodes():
+            if n.get("k") == "Member" and n.get("field") and (n.get("b") or {}).get("k") == "This":
+                mem.add(n["n"])
+            if n.get("k") == "MCall" and (n.get("obj") or {}).get("k") == "This" and n.get("ccls") == cls:
+                g = by_decl.get(n.get("cdecl"))
+                if g is not None and g.body is not None:
+                    work.append(g)
+    return mem
+
+
+def analyse_copy_ops(ck, facts):
+    ck.tu(facts)
+    by_decl = {f.d["decl"]: f for f in facts.functions if "decl" in f.d}
+    for e in facts.errors_outside_repo():
+        ck.incomplete("E0.copy-ops", "TU %s has an error outside the repository: %s:%d %s" % (facts.tu, e["file"], e["line"], e["msg"]))
+    ops = {}
+    for f in facts.functions:
+        if f.tk == "pattern" or base_name(f.cls) not in FILTER_CLASSES:
+            continue
+        kind = copy_op_kind(f)
+        if kind:
+            ops.setdefault(f.cls, {})[kind] = f
+    broken = {}
+    last = None
+    for e in facts.errors_in_repo():
+        hit = None
+        if not e["notes"] and last is not None and last[0] == e["file"] and abs(last[1] - e["line"]) <= 3:
+            hit = last[2]          # follow-up error of the same failed instantiation (clang prints the note stack once)
+        for cls, d in ops.items():
+            for kind, f in d.items():
+                if f.file == e["file"] and f.line <= e["line"] <= f.end:
+                    hit = (cls, kind, f)
+        if hit is None:
+            # member whose instantiation failed altogether is not in the fact base: take it from the instantiation note
+            for nt in e["notes"]:
+                m_ = re.search(r"in instantiation of (?:member function|function template specialization) '(.+)::(clone|convert|operator=)(?:<.*>)?' requested here", nt["msg"])
+                if m_ and base_name(m_.group(1)) in FILTER_CLASSES and nt["file"] != facts.tu:
+                    continue
+                if m_ and base_name(m_.group(1)) in FILTER_CLASSES:
+                    cls_, nm = m_.group(1), m_.group(2)
+                    kind_ = {"convert": "convert(other)", "operator=": "move-assign"}.get(nm) or ("clone(other)" if "clone()" in ops.get(cls_, {}) and not any(f_.file == e["file"] and f_.line <= e["line"] <= f_.end for f_ in [ops[cls_]["clone()"]]) else "clone()")
+                    hit = (cls_, kind_, None)
+                    break
+        if hit is None:
+            ck.incomplete("E0.copy-ops", "front-end error outside a copy-like member: %s:%d %s" % (rel(e["file"]), e["line"], e["msg"]))
+            continue
+        last = (e["file"], e["line"], hit)
+        broken.setdefault((base_name(hit[0]), hit[1]), []).append((e, hit[2]))
+    for (b, kind), lst in sorted(broken.items()):
+        e, f = lst[0]
+        ck.ob("E0.copy-ops", "%s::%s" % (short(b), kind), False,
+              "%s::%s cannot be instantiated (%d front-end errors for the component types of the driver): %s" % (short(b), kind, len(lst), e["msg"][:200]), e["file"], e["line"])
+    flow = CopyFlow(facts, by_decl)
+    for cls in sorted(ops):
+        R_ = members_read_by_filters(facts, cls, by_decl)
+        for kind in COPY_OPS:
+            f = ops[cls].get(kind)
+            if f is None:
+                continue
+            key0 = "%s::%s" % (short(cls), kind)
+            if (base_name(cls), kind) in broken:
+                continue
+            ck.ob("E0.copy-ops", key0, True, "instantiates", f.file, f.line, trivial=True)
+            if not R_:
+                continue
+            src = "this" if kind == "clone()" else f.params[0]["d"]
+            T, unknown = flow.transfers(f, src)
+            for m in sorted(R_):
+                key = "%s/%s" % (key0, m)
+                tg = T.get(m, set())
+                direct = m in tg or "*" in tg
+                derived = [t[8:] for t in tg if t.startswith("derived:")]
+                if not direct and derived and all((d_ in T.get(d_, set())) for d_ in derived):
+                    direct = True      # recomputed by the constructor from members that are themselves transferred
+                if direct:
+                    ck.ob("C06.state-transfer", key, True, "%s <- source.%s" % (m, m), f.file, f.line)
+                elif "?" in tg or unknown:
+                    ck.incomplete("C06.state-transfer", "%s: not decided (%s)" % (key, "; ".join(unknown[:2]) or "source accessor not resolved"))
+                elif tg - {t for t in tg if t.startswith("p:")}:
+                    others = sorted(t for t in tg if not t.startswith("p:"))
+                    ck.ob("C06.state-transfer", key, False, "%s of the %s is defined from the source's %s, not from its %s: the copy filters with a different %s than the original" % (m, "result" if kind == "clone()" else "target", others, m, m), f.file, f.line)
+                else:
+                    ck.ob("C06.state-transfer", key, False, "%s is read by %s but %s does not take it over from the source (the other copy-like operations do): the %s keeps a default / stale %s and imposes a different constraint than the original" % (
+                        m, ", ".join(sorted({g.name for g in facts.functions if g.cls == cls and g.name and g.name.startswith("filter_") and any(n.get("k") == "Member" and n.get("n") == m for n in g.nodes())})[:4]) or "the filter methods", kind,
+                        "clone" if kind.startswith("clone") else "target", m), f.file, f.line)
+
+
 # =================================================================================================
 # the check
 # =================================================================================================
@@ -1782,9 +2182,12 @@ def run(tier):
     ck.rule("E6.mean-roles", "MeanFilter / MeanFilterBlocked / Global::MeanFilter: filter_rhs/def add c*_vec_dual with c = -<vector,_vec_prim>/_volume, filter_sol/cor add c*_vec_prim with c = [sol_mean] - <vector,_vec_dual>/_volume (per block component; global: frequency-weighted triple_dot summed over the communicator). Broken => mean not removed / not idempotent whenever prim != dual (any non-uniform mesh)", 16 * k)
     ck.rule("E4.map", "FilterChain, FilterSequence, TupleFilter, PowerFilter, Global::Filter: filter_X applies filter_X (same method) of every component exactly once, to the whole vector (chain/sequence, in declared order) resp. to the like-named sub-vector first()/rest()/local()", 65 * k)
 
+    ck.rule("E0.copy-ops", "move construction / move assignment / clone() / clone(other) / convert(other) of every filter class instantiate (driver tu/c06_copyops.cpp); a copy-like member that cannot be instantiated cannot hand the constraint over", 66)
+    ck.rule("C06.state-transfer", "sibling agreement of the copy-like operations: every data member that the filter_* methods of a class read (transitively through its own accessors) is defined, in each of move-ctor / move-assign / clone() / clone(other) / convert(other), from the SAME member of the source (directly, through the class's constructor parameter that initialises it, or recomputed from transferred members). Broken => the copy imposes a different constraint than the original as soon as that member is not at its default (e.g. ignore_nans=true, sol_mean != 0)", 123)
     extra = ("-DC06_WIDE",) if wide else ()
     facts = featlib.extract("tu/c06_filters.cpp", files=FILES, extra=extra)
     analyse(ck, facts, "", True)
+    analyse_copy_ops(ck, featlib.extract("tu/c06_copyops.cpp", files=FILES))
     if wide:
         # breadth: the instantiations the repository's own filter tests produce (same rules, keys prefixed by the TU)
         for t in REPO_TUS:
